@@ -83,6 +83,60 @@ Proof.
   rewrite !String.eqb_refl. cbn [andb]. rewrite app_nil_r, rev_involutive. reflexivity.
 Qed.
 
+(* the read-back tree WITHOUT attribute de-duplication *)
+Fixpoint normalise_raw (n : node) : node :=
+  match n with
+  | Elem sp t a k =>
+      Elem sp t a
+        ((fix nk (acc : string) (l : list node) : list node :=
+            match l with
+            | [] => flush acc
+            | Text s :: r => nk (acc ++ s)%string r
+            | x :: r => flush acc ++ normalise_raw x :: nk EmptyString r
+            end) EmptyString k)
+  | other => other
+  end.
+Fixpoint norm_kids_raw (acc : string) (l : list node) : list node :=
+  match l with
+  | [] => flush acc
+  | Text s :: r => norm_kids_raw (acc ++ s)%string r
+  | x :: r => flush acc ++ normalise_raw x :: norm_kids_raw EmptyString r
+  end.
+Lemma normalise_raw_elem sp t a k : normalise_raw (Elem sp t a k) = Elem sp t a (norm_kids_raw EmptyString k).
+Proof. reflexivity. Qed.
+
+(* the same with PreserveDuplicateAttrs (what the Token() loop of Decoder.Decode sees: no de-duplication) *)
+Lemma cbuild_tree_raw : forall n, is_text n = false ->
+  forall rest stack cur, build false (ctoks n ++ rest) stack cur = build false rest stack (normalise_raw n :: cur).
+Proof.
+  induction n as [sp t a k IHk | s | s | tg i | s] using node_ind_kids; intros HT; try discriminate HT;
+    try (intros rest stack cur; reflexivity).
+  intros rest stack cur. rewrite ctoks_elem, normalise_raw_elem. cbn [app build].
+  assert (HK : forall l, Forall (fun n => is_text n = false ->
+                 forall rest stack cur, build false (ctoks n ++ rest) stack cur = build false rest stack (normalise_raw n :: cur)) l ->
+               forall acc rest stack cur,
+               build false (ckids acc l ++ rest) stack cur = build false rest stack (rev (norm_kids_raw acc l) ++ cur)).
+  { clear. induction l as [|x l IH]; intros HF acc rest stack cur.
+    - cbn [ckids norm_kids_raw]. apply build_rchars.
+    - inversion HF as [|? ? Hx Hl]; subst.
+      destruct x as [sp t a kk | s | s | tg i | s].
+      + cbn [ckids norm_kids_raw]. rewrite <- !app_assoc. rewrite build_rchars.
+        rewrite (Hx eq_refl). rewrite (IH Hl).
+        rewrite rev_app_distr. cbn [rev]. rewrite <- !app_assoc. cbn [app]. reflexivity.
+      + cbn [ckids norm_kids_raw]. apply (IH Hl).
+      + cbn [ckids norm_kids_raw]. rewrite <- !app_assoc. rewrite build_rchars.
+        rewrite (Hx eq_refl). rewrite (IH Hl).
+        rewrite rev_app_distr. cbn [rev]. rewrite <- !app_assoc. cbn [app]. reflexivity.
+      + cbn [ckids norm_kids_raw]. rewrite <- !app_assoc. rewrite build_rchars.
+        rewrite (Hx eq_refl). rewrite (IH Hl).
+        rewrite rev_app_distr. cbn [rev]. rewrite <- !app_assoc. cbn [app]. reflexivity.
+      + cbn [ckids norm_kids_raw]. rewrite <- !app_assoc. rewrite build_rchars.
+        rewrite (Hx eq_refl). rewrite (IH Hl).
+        rewrite rev_app_distr. cbn [rev]. rewrite <- !app_assoc. cbn [app]. reflexivity. }
+  rewrite <- app_assoc. rewrite (HK k IHk). cbn [app build f_tag f_space f_attrs f_before].
+  rewrite !String.eqb_refl. cbn [andb]. rewrite app_nil_r, rev_involutive. reflexivity.
+Qed.
+
 (* ================================================================ 2. statement-level definitions *)
 (* a comment the reader accepts and gives back: no "--" inside, no '-' at the end *)
 Fixpoint comment_go (prev_dash : bool) (s : string) : bool :=
@@ -520,6 +574,52 @@ Proof.
   unfold read_tree, read_root. rewrite D. reflexivity.
 Qed.
 
+(* what xml.Unmarshal (a fresh decoder, either CharsetReader setting: there is no XML declaration) consumes from the canonical
+   bytes -- goxmldsig reads the canonical SignedInfo bytes this way, validate.go:295 -- is the same element without attribute
+   de-duplication; for an element whose attribute lists hold no repeated name it IS the tree read_tree returns *)
+Fixpoint dup_free (n : node) : bool :=
+  match n with
+  | Elem _ _ a k => list_eqb attr_eqb (dedupe_attrs a) a && forallb dup_free k
+  | _ => true
+  end.
+
+Lemma attr_eqb_eq x y : attr_eqb x y = true -> x = y.
+Proof.
+  unfold attr_eqb. intros H. apply andb_true_iff in H as [H H3]. apply andb_true_iff in H as [H1 H2].
+  apply String.eqb_eq in H1, H2, H3. destruct x, y. cbn in *. subst. reflexivity.
+Qed.
+Lemma list_eqb_attr_eq : forall l1 l2, list_eqb attr_eqb l1 l2 = true -> l1 = l2.
+Proof.
+  induction l1 as [|x r IH]; intros [|y r2] H; try discriminate; [reflexivity|].
+  cbn [list_eqb] in H. apply andb_true_iff in H as [H1 H2]. apply attr_eqb_eq in H1. subst. f_equal. apply IH, H2.
+Qed.
+
+Lemma normalise_dup_free : forall n, dup_free n = true -> normalise n = normalise_raw n.
+Proof.
+  induction n as [sp t a k IHk | | | |] using node_ind_kids; intros H; try reflexivity.
+  cbn [dup_free] in H. apply andb_true_iff in H as [Ha Hk]. apply list_eqb_attr_eq in Ha.
+  rewrite normalise_elem, normalise_raw_elem, Ha. f_equal.
+  generalize EmptyString. induction k as [|x k IH]; intros acc; [reflexivity|].
+  inversion IHk as [|? ? Hx Hr]; subst. cbn [forallb] in Hk. apply andb_true_iff in Hk as [H1 H2].
+  destruct x as [xsp xt xa xk | s | s | tg i | s]; cbn [norm_kids norm_kids_raw];
+    try (rewrite (IH Hr H2); reflexivity).
+  rewrite (Hx H1), (IH Hr H2). reflexivity.
+Qed.
+
+Theorem canonical_bytes_token_view c p : c14n_wf_elem p = true ->
+  token_view_with c (c14n_write p) = Ok (normalise_raw p) /\
+  (dup_free p = true -> token_view_with c (c14n_write p) = read_tree (c14n_write p)).
+Proof.
+  intros W. pose proof W as W0. unfold c14n_wf_elem in W. apply andb_true_iff in W as [HE W].
+  destruct p as [sp t a k| | | |]; try discriminate HE.
+  assert (T : token_view_with c (c14n_write (Elem sp t a k)) = Ok (normalise_raw (Elem sp t a k))).
+  { unfold token_view_with, token_prefix. rewrite (canonical_bytes_tokens (cs_flag c) sp t a k W). cbn [fst].
+    apply (build_tv_skip (ctoks (Elem sp t a k)) [] [normalise_raw (Elem sp t a k)]); [|reflexivity|reflexivity].
+    rewrite <- (app_nil_r (ctoks (Elem sp t a k))). rewrite (cbuild_tree_raw (Elem sp t a k) eq_refl). reflexivity. }
+  split; [exact T|]. intros D. rewrite T. destruct (canonical_bytes_read_back _ W0) as (_ & _ & R). rewrite R.
+  rewrite (normalise_dup_free _ D). reflexivity.
+Qed.
+
 (* ================================================================ 5. Canonicalize, then re-parse *)
 (* the tree the verifier decodes from the canonical bytes IS the prepared tree (normalised: adjacent character data merged,
    empty character data gone, duplicated attributes collapsed) *)
@@ -905,3 +1005,13 @@ Module ReaderExample.
     = DOk (Elem "" "Root" [A "ID" "x"] [Elem "" "Item" [A "a" "1"; A "b" ("t" ++ tab)] [Text ("hello" ++ cr)]]).
   Proof. vm_compute. split; reflexivity. Qed.
 End ReaderExample.
+
+(* ================================================================ 8. the observable of the DSIG stream, set "validate2" *)
+(* DsigReader.dsig_obs_model2 followed by the PREMISE of the theorems above evaluated on the presented element (which
+   etree.ReadFromBytes delivered): it must hold unless the element holds a directive or a <?xml?> instruction inside *)
+Definition dsig_obs_reader (t : oracle_tables) (store : list cert) (now : instant) (root : node)
+           (exp_tree exp_mut : option node) : val :=
+  match dsig_obs_model2 t store now root exp_tree exp_mut with
+  | VL l => VL (l ++ [VB (has_directive_or_xml_pi root || c14n_wf root)])
+  | v => v
+  end.
